@@ -349,6 +349,8 @@ func runGuard(c *core.Ctx) []core.Obligation {
 		}
 	}
 	obs = append(obs, findVertexIndex(c))
+	obs = append(obs, getCellsRootTest(c))
+	obs = append(obs, cellOverlapShortcuts(c)...)
 	return obs
 }
 
@@ -446,4 +448,48 @@ func findVertexIndex(c *core.Ctx) core.Obligation {
 			"the index returned at "+bad+" is not the index whose vertex was found equal to p on every path to that return: the callers (ContainsNested, containsNonCrossingBoundary) then run their wedge test at a neighbouring vertex, so a hole that touches its shell at that vertex is classified as not nested and polygon Contains/Intersects give the wrong answer")
 	}
 	return core.Ob("R-GUARD", construct, c.Pos(fn.Pos()), core.FuncName(fn), core.Discharged, fmt.Sprintf("%d successful returns, each behind Vertex(k) == p for the k it returns", nret))
+}
+
+// getCellsRootTest (after round-8 seed C07-r8m1, `root.Bound().Intersects(edgeBound)` turned into `Contains`): the
+// cells under a root cell that a query edge meets are collected whenever the edge's bounding rectangle MEETS the
+// root's padded bound. The edge need not lie inside the root - the loop-relation walk calls this with edges that
+// stick out of their own index cell - so a stronger test skips the collection, and crossings with the other loop's
+// edges in those cells are never looked for.
+func getCellsRootTest(c *core.Ctx) core.Obligation {
+	const construct = "CrossingEdgeQuery.getCells:collects-when-bounds-meet"
+	fn := c.Fn("s2", "CrossingEdgeQuery", "getCells")
+	if fn == nil {
+		return core.Ob("R-GUARD", construct, "-", "", core.Violated, "unresolved anchor")
+	}
+	var work *ssa.Call
+	core.AllInstrs(fn, func(in ssa.Instruction) {
+		if call, ok := in.(*ssa.Call); ok && core.StaticCallee(call) != nil && core.StaticCallee(call).Name() == "computeCellsIntersected" {
+			work = call
+		}
+	})
+	if work == nil {
+		return core.Ob("R-GUARD", construct, c.Pos(fn.Pos()), core.FuncName(fn), core.Violated, "unresolved anchor: computeCellsIntersected is not called")
+	}
+	guard := ""
+	for _, b := range fn.Blocks {
+		ifi, ok := b.Instrs[len(b.Instrs)-1].(*ssa.If)
+		if !ok {
+			continue
+		}
+		call, ok := ifi.Cond.(*ssa.Call)
+		if !ok || core.StaticCallee(call) == nil || core.StaticCallee(call).Signature.Recv() == nil || !core.IsNamed(core.StaticCallee(call).Signature.Recv().Type(), "r2", "Rect") {
+			continue
+		}
+		if core.EdgeDominates(core.Edge{From: b, Idx: 0}, work.Block()) {
+			guard = core.StaticCallee(call).Name()
+		}
+	}
+	switch guard {
+	case "Intersects":
+		return core.Ob("R-GUARD", construct, c.Pos(fn.Pos()), core.FuncName(fn), core.Discharged, "the cells are collected whenever the edge's bound meets the root's bound")
+	case "":
+		return core.Ob("R-GUARD", construct, c.Pos(fn.Pos()), core.FuncName(fn), core.Discharged, "the cells are collected unconditionally")
+	}
+	return core.Ob("R-GUARD", construct, c.Pos(work.Pos()), core.FuncName(fn), core.Violated,
+		"the cells under the root are collected only when r2.Rect."+guard+" holds between the root's bound and the edge's bound, which is stronger than 'they meet': an edge that sticks out of the root cell collects nothing, so the relation walk misses the crossings in those cells and reports crossing loops as disjoint (or contained)")
 }
